@@ -119,7 +119,7 @@ def gen_case(rng, family='any'):
                 dd = day_of(d0) + rng.randrange(1, max(2, nd))
                 e = dd * 86400 + CLOSE + rng.choice([0, 0, 60, -60])
             elif k < 0.85:
-                e = (day_of(d0) + rng.randrange(1, max(2, nd))) * 86400 + rng.choice([0, OPEN, 40000])
+                e = (day_of(d0) + rng.randrange(1, max(2, nd))) * 86400 + rng.choice([0, OPEN, 40000, 80100, 86399])
             elif k < 0.93:
                 e = end + 86400 * 10
             else:
@@ -145,14 +145,14 @@ def gen_case(rng, family='any'):
         if rotation and rng.random() < 0.7:
             # two assets admitted at the same instant after the start, one of them not yet priced for a few days
             kk = rng.randrange(3, 10)
-            e = (day_of(d0) + kk) * 86400 + CLOSE
+            e = (day_of(d0) + kk) * 86400 + CLOSE + rng.choice([0, 0, 1, 4500])
             dates = [[a, start - 86400] for a in assets[:-2]] + [[a, e] for a in assets[-2:]]
             uni = {'dynamic': dates}
             late = dict(late or {})
             late[syms[-1 if rng.random() < 0.5 else -2]] = 10 + kk + rng.randrange(1, 4)
             reb = 'weekly'
         elif rng.random() < 0.4:
-            dates = [[a, (start - 86400 if rng.random() < 0.4 else (day_of(d0) + rng.randrange(0, max(1, nd))) * 86400 + rng.choice([CLOSE, CLOSE, OPEN + 60, 40000]))] for a in assets]
+            dates = [[a, (start - 86400 if rng.random() < 0.4 else (day_of(d0) + rng.randrange(0, max(1, nd))) * 86400 + rng.choice([CLOSE, CLOSE, OPEN + 60, 40000, CLOSE + 1, CLOSE + 60, 80100, 86399]))] for a in assets]
             uni = {'dynamic': dates}
     if rng.random() < 0.2:
         # one asset whose data start a few days into the range (its file may carry empty rows before the listing)
@@ -194,4 +194,6 @@ def gen_case(rng, family='any'):
         case['start_us'] = rng.choice([1, 250000, 999999])      # a start carrying microseconds: the session is that of the whole second
     if spikes:
         case['spike_days'] = sorted(set(day_of(dtm.date.fromisoformat(x)) for x in spikes))
+    # the console-output switch (settings.PRINT_EVENTS) is on for some sessions: what a session does never depends on it
+    case['loud'] = rng.random() < 0.25
     return case
